@@ -49,6 +49,53 @@ theorem locked_at_most_one (s : SessSt) (sched : List Nat) (h : s.sessions ≤ 1
 theorem unlocked_two_sessions :
     (run stepUnlocked ⟨0, [.start, .start]⟩ [0, 1, 0, 1]).sessions = 2 := by decide
 
+/-! ## look up a token and renew it (wallet `getSession`) against `closeSession` -/
+
+/-- the gcache entry of one token (`live`), the sessions that were closed and never re-opened must stay dead;
+    per thread: `0` use not started, `1` use has read the entry as live, `2` done; thread ids ≥ `users` close -/
+structure TokSt where
+  live : Bool
+  closed : Bool          -- a close has completed
+  pcs : List Nat
+
+/-- WITHOUT the mutex a use is two steps: read the entry, later write it back with a new expiry. `closer = true`: the
+    thread is a `closeSession` (one step). -/
+def tokUnlocked (closers : List Nat) (s : TokSt) (t : Nat) : TokSt :=
+  if closers.contains t then { s with live := false, closed := true }
+  else match s.pcs[t]? with
+    | some 0 => if s.live then { s with pcs := s.pcs.set t 1 } else { s with pcs := s.pcs.set t 2 }
+    | some 1 => { s with live := true, pcs := s.pcs.set t 2 }      -- SetWithExpire puts the entry back
+    | _ => s
+
+/-- WITH the mutex the read and the write-back are one step -/
+def tokLocked (closers : List Nat) (s : TokSt) (t : Nat) : TokSt :=
+  if closers.contains t then { s with live := false, closed := true }
+  else match s.pcs[t]? with
+    | some 0 => { s with pcs := s.pcs.set t 2 }                     -- live stays what it is
+    | _ => s
+
+theorem tokLocked_dead (closers : List Nat) (s : TokSt) (t : Nat) (h : s.closed = true → s.live = false) :
+    (tokLocked closers s t).closed = true → (tokLocked closers s t).live = false := by
+  unfold tokLocked
+  split
+  · intro _; rfl
+  · split <;> exact h
+
+/-- **with the mutex, whatever the schedule and the number of users and closers: once a close has completed the token
+    is dead** (no open is in the model: the token is never issued again) -/
+theorem locked_closed_stays_dead (closers : List Nat) (s : TokSt) (sched : List Nat)
+    (h : s.closed = true → s.live = false) :
+    (sched.foldl (tokLocked closers) s).closed = true → (sched.foldl (tokLocked closers) s).live = false := by
+  induction sched generalizing s with
+  | nil => simpa using h
+  | cons t rest ih => exact ih (tokLocked closers s t) (tokLocked_dead closers s t h)
+
+/-- without it: a use reads the live entry, the close completes, the use writes the entry back — the closed session is
+    live again -/
+theorem unlocked_session_resurrected :
+    let s := [0, 1, 0].foldl (tokUnlocked [1]) ⟨true, false, [0, 0]⟩
+    s.closed = true ∧ s.live = true := by decide
+
 /-! ## two-store write (cachedstore: main store, then cache) -/
 
 structure TwoSt where
